@@ -328,11 +328,17 @@ def c02(ctx):
     V.mc(ctx, "MC_C02", workers=12)
     summ = V.gen_traces(ctx, shards=12)
     V.validate(ctx, "Trace_C02", summ, V.default_sig, par=12)
+    # B2: the structural space of MC_C02 as concrete (packet, data) pairs, each through the real SetPayload
+    rows = os.path.join(ctx.dir, "c02.pairs.ndjson")
+    V.tlc_emit(ctx, "Gen_C02", rows, workers=4)
+    summ2 = V.gen_traces(ctx, shards=12, name="trace-b2", extra=["-in", rows])
+    V.validate(ctx, "Trace_C02", summ2, V.default_sig, par=12)
     return V.finish(ctx, "model_checking",
                     rule="MC: the constructive SetPayload of TsPacket satisfies C02's postconditions (count, read-back, preserved header and adaptation-field content, stuffing, partition) for all "
                          "144 adaptation-field shapes x 11 packet kinds (payload only, AF length 0, lengths 1..182 sample) x 17 payload lengths. B3: real packets of every adaptation_field_length "
                          "0..183 (blank and randomly populated, AF-only, payload-only, degenerate full AF) through Header/Payload (function and method), method SetPayload with payload lengths 0..200 "
-                         "(incl. capacity-1/capacity/capacity+1), package-level SetPayload and the creation helpers; validated by TLC against TsPacket. "
+                         "(incl. capacity-1/capacity/capacity+1), package-level SetPayload and the creation helpers; validated by TLC against TsPacket. B2: the (packet, data) pairs of the MC space printed by Gen_C02, "
+                         "each through the real SetPayload and validated the same way (quick: every eighth pair). "
                          "class = (operation, packet kind, AF length bucket, payload length vs room, error)",
                     trace_module="Trace_C02", sigfn=V.default_sig,
                     assumptions=["TLC/SANY and the JVM", "AdaptationField/TsHeader specs (C01, C03)", "payload bytes used for SetPayload never equal 0xFF, so stuffing is distinguishable",
